@@ -80,7 +80,7 @@ def rule_b(ctx):
         if p.outcome == 'raise':
             r = [e for e in p.events if e.kind == 'raise' and e.data.get('implicit') == 'app']
             escaping.append(r[-1] if r else None)
-    rep.require('C11.b', 'per-stream call-outs in stop_all_streams', len(callouts), 2)
+    rep.require('C11.b', 'per-stream call-outs in stop_all_streams', len(callouts), 1)
     if escaping:
         e = escaping[0]
         rep.bad('C11.b', 'StreamControl.stop_all_streams / loop body', (f.file, e.line if e else f.line),
